@@ -122,3 +122,148 @@ def compose_slices(c):
 
     r = f(ix_to_py(c["a"]), ix_to_py(c["b"]), c["n"])
     return dict(c, out=ix_to_json(r))
+
+
+# ---------------------------------------------------------------------------- C15
+def decode_plan(fn, t, cid):
+    if fn == "plan_rechunk":
+        old, new, cfg = t
+        return {"id": cid, "fn": fn, "old": old, "new": new, "itemsize": cfg[0], "threshold": cfg[1],
+                "limit": cfg[2], "degree": cfg[3]}
+    if fn == "merge_to_number":
+        return {"id": cid, "fn": fn, "c": t[0], "k": t[1]}
+    if fn == "normalize_chunks":
+        sh, sp, cfg, prev = t
+        return {"id": cid, "fn": fn, "shape": sh, "spec": sp, "itemsize": cfg[0], "limit": cfg[1], "prev": prev}
+    if fn == "unify_chunks":
+        ops, pol, lim = t
+        return {"id": cid, "fn": fn, "ops": [{"grid": o[0], "labels": o[1], "itemsize": o[2]} for o in ops],
+                "policy": pol, "limit": lim}
+    if fn == "moved_fraction":
+        return {"id": cid, "fn": fn, "src": t[0], "dst": t[1]}
+    raise KeyError(fn)
+
+
+def _grid(g):
+    return tuple(tuple(int(v) for v in ax) for ax in g)
+
+
+def plan_rechunk(c):
+    import dask
+
+    from dask_array._rechunk import old_to_new, plan_rechunk as f
+
+    old, new = _grid(c["old"]), _grid(c["new"])
+    with dask.config.set({"array.rechunk.degree-limit": c["degree"]}):
+        plan = f(old, new, c["itemsize"], threshold=c["threshold"], block_size_limit=c["limit"])
+    with dask.config.set({"array.rechunk.degree-limit": 10**9}):
+        plan_nd = f(old, new, c["itemsize"], threshold=c["threshold"], block_size_limit=c["limit"])
+    cw = old_to_new(old, new)
+    cwj = [[[[int(b), int(sl.start), int(sl.stop)] for b, sl in nb] for nb in ax] for ax in cw]
+    return dict(c, out={"plan": [[list(ax) for ax in st] for st in plan], "cw": cwj},
+                plan_without_degree_bound=[[list(ax) for ax in st] for st in plan_nd])
+
+
+def merge_to_number(c):
+    from dask_array._rechunk import merge_to_number as f
+
+    return dict(c, out=[int(v) for v in f(tuple(c["c"]), c["k"])])
+
+
+# ---------------------------------------------------------------------------- C16
+def _spec_py(sp, limit):
+    k, v = sp
+    if k == 0:
+        return int(v)
+    if k == 1:
+        return -1
+    if k == 2:
+        return None
+    if k == 3:
+        return "auto"
+    if k == 4:
+        return tuple(int(x) for x in v)
+    if k == 5:
+        return f"{limit}B"
+    raise ValueError(sp)
+
+
+def normalize_chunks(c):
+    """Calls normalize_chunks in tuple form and (when possible) dict form; both must agree."""
+    import warnings
+
+    import numpy as np
+
+    from dask_array._core_utils import normalize_chunks as f
+
+    shape = tuple(c["shape"])
+    spec = tuple(_spec_py(sp, c["limit"]) for sp in c["spec"])
+    dtype = {1: np.uint8, 4: np.float32, 8: np.float64}[c["itemsize"]]
+    has_bytes = any(sp[0] == 5 for sp in c["spec"])
+    limit = None if has_bytes else c["limit"]
+    prev = _grid(c["prev"]) if c["prev"] else None
+    outs = []
+    forms = [spec, dict(enumerate(spec))]
+    if len(set(map(repr, spec))) == 1 and not isinstance(spec[0], tuple) and spec[0] is not None:
+        forms.append(spec[0])
+    for form in forms:
+        try:
+            with warnings.catch_warnings():
+                warnings.simplefilter("ignore")
+                r = f(form, shape=shape, limit=limit, dtype=dtype, previous_chunks=prev)
+            outs.append([[int(v) for v in ax] for ax in r])
+        except Exception as ex:  # a rejected specification is fine
+            outs.append(("raised", type(ex).__name__))
+    first = outs[0]
+    agree = all(o == first for o in outs)
+    if isinstance(first, tuple):
+        return dict(c, out={"raised": 1, "chunks": []}, forms_agree=agree)
+    return dict(c, out={"raised": 0, "chunks": first}, forms_agree=agree, all_forms=[o if not isinstance(o, tuple) else list(o) for o in outs])
+
+
+# ---------------------------------------------------------------------------- C17
+def unify_chunks(c):
+    import warnings
+
+    import dask
+    import numpy as np
+
+    import dask_array as da
+    from dask_array._expr import unify_chunks_expr
+
+    arrays = []
+    args = []
+    for k, o in enumerate(c["ops"]):
+        g = _grid(o["grid"])
+        shape = tuple(sum(ax) for ax in g)
+        dt = {1: np.uint8, 4: np.float32, 8: np.float64}[o["itemsize"]]
+        a = da.from_array(np.arange(int(np.prod(shape)), dtype=dt).reshape(shape) + k, chunks=g)
+        arrays.append(a)
+        args += [a.expr, tuple(o["labels"])]
+    with dask.config.set({"array.unify-chunks-policy": c["policy"], "array.unify-chunks-limit": c["limit"]}):
+        try:
+            with warnings.catch_warnings():
+                warnings.simplefilter("ignore")
+                chunkss, arrs, _changed = unify_chunks_expr(*args)
+        except Exception as ex:
+            return dict(c, out={"raised": 1, "common": [], "grids": []}, exc=type(ex).__name__)
+    common = [[int(lab), [int(v) for v in ch]] for lab, ch in chunkss.items()]
+    grids = [[[int(v) for v in ax] for ax in a.chunks] for a in arrs]
+    return dict(c, out={"raised": 0, "common": common, "grids": grids})
+
+
+# ---------------------------------------------------------------------------- C27
+def moved_fraction(c):
+    from dask_array._expr import moved_fraction as f
+
+    src, dst = tuple(c["src"]), tuple(c["dst"])
+    v = f(src, dst)
+    den = sum(src)
+    num = round(v * den)
+    exact = 1 if abs(v - num / den) < 1e-12 else 0
+    if not exact:
+        # keep the sign / magnitude facts the property talks about
+        import math
+
+        num = math.floor(v * den) if v >= 0 else math.floor(v * den)
+    return dict(c, out={"num": int(num), "den": int(den), "exact": exact})
